@@ -32,8 +32,9 @@ def run(ctx):
     q = ctx.quick
     sims = [("Sim_IndexScript.cfg", 10 if q else 60, 5 if q else 8), ("Sim_IndexEdit.cfg", 2 if q else 60, 6 if q else 12),
             ("Sim_IndexFresh.cfg", 2 if q else 30, 6 if q else 10), ("Sim_IndexAll.cfg", 2 if q else 60, 6 if q else 12)]
-    res = ic.tour(ctx, sims, {"crash": True, "torn": not q}, cats, "C13")
+    res = ic.tour(ctx, sims, {"crash": True, "torn": not q, "double": 0 if q else 2}, cats, "C13")
     pts = sum(x.get("crash_points", 0) for x in res)
+    ctx.set("second_crashes_fired", sum(x.get("second_crashes", 0) for x in res))
     ctx.set("crash_points_executed", pts)
     ctx.set("evaluations", pts)
     effs = {tuple(e) for x in res for e in x.get("effects", [])}
@@ -46,7 +47,8 @@ def run(ctx):
     ctx.set("rule", "scenarios = every create / reindex command of simulated Index.tla behaviours (directories with new notes, "
                     "edited notes, several pages, deleted pages, explicit paths); for each, EVERY boundary between consecutive external "
                     "effects (file write, rename, unlink, database commit) is a crash point" + ("" if q else
-                    "; every file write additionally torn at 0 / 50 / 97 %") + "; distinct = distinct effect sequences")
+                    "; every file write additionally torn at 0 / 50 / 97 %; and two sampled second-order points per boundary "
+                    "(the rerun is killed too, the run after it must converge)") + "; distinct = distinct effect sequences")
     ctx.assume("a kill between effects is simulated in-process by raising a BaseException at the effect boundary and dropping the engine; "
                "SQLite's own journal makes a commit atomic")
     ctx.assume("effects are observed at io.open / os.unlink / os.rename / os.replace / SQLAlchemy commit")
